@@ -11,6 +11,7 @@ from __future__ import annotations
 
 import ast
 
+from ..nf import to_nf, NFUnsupported
 from ..astutil import (assigned_targets, call_name, calls_in, const_value, dotted, find_func, is_self_attr, kwarg,
                        names_in, parse_expr, parse_stmt, replace_node, subst_names, clone)
 from ..cfg import CFG
@@ -203,14 +204,14 @@ def _r1_carried_state(ctx, prog, dets):
                     else:
                         ctx.violated(fi, s, "state self.%s is handed to %s as %r but the returned value is stored in %s"
                                      % (attr, callee.name, kw, norm_text(t)))
-        # (iii) residual attributes assigned after the kernel call on every path
-        kernel_calls = [s for s in walk_function(fi.node) if isinstance(s, ast.Assign) and isinstance(s.value, ast.Call)
+        # (iii) residual attributes assigned after the kernel call on every path (directly or by a helper method that stores
+        # them on each of its own paths)
+        kernel_calls = [s for s in walk_function(fi.node) if isinstance(s, (ast.Assign, ast.Expr)) and isinstance(s.value, ast.Call)
                         and (call_name(s.value) or "").endswith("point_loop")]
         for ks in kernel_calls:
             for attr in ("_residuals", "_residual_index"):
-                stores = {cfg.node(x) for x in walk_function(fi.node) if isinstance(x, ast.Assign) and
-                          any(is_self_attr(t, attr) for t in x.targets)}
-                stores.discard(None)
+                stores = _must_effect_nodes(prog, fi, cfg, lambda f2, x: isinstance(x, ast.Assign) and
+                                            any(is_self_attr(t, attr) for t in x.targets))
                 if stores and cfg.must_pass(cfg.exit, stores, start=cfg.node(ks)):
                     ctx.holds(fi, ks, "self.%s is re-assigned from the kernel result on every path" % attr)
                 else:
@@ -218,21 +219,50 @@ def _r1_carried_state(ctx, prog, dets):
                                  text="%s after %s" % (attr, norm_text(ks.value.func)))
             # (iv) once _new_turns has consumed the chunk (head and sample tail advance), every normal exit passes the kernel:
             # a short cut that returns without it leaves residuals / residual index behind the consumed samples
-            nts = [x for x in walk_function(fi.node) if isinstance(x, (ast.Assign, ast.Expr)) and
-                   any(isinstance(c.func, ast.Attribute) and is_self_attr(c.func) and c.func.attr == "_new_turns"
-                       for c in calls_in(x))]
-            for nt in nts:
-                a, b = cfg.node(nt), cfg.node(ks)
+            nts = _must_effect_nodes(prog, fi, cfg, lambda f2, x: isinstance(x, (ast.Assign, ast.Expr)) and any(
+                isinstance(c.func, ast.Attribute) and is_self_attr(c.func) and c.func.attr == "_new_turns" for c in calls_in(x)),
+                may=True)
+            for a in nts:
+                b = cfg.node(ks)
                 if a is None or b is None:
                     continue
                 if cfg.must_pass(cfg.exit, {b}, start=a):
                     ctx.holds(fi, ks, "every path from _new_turns (chunk consumed) to the end of process() runs the kernel")
                 else:
-                    ctx.violated(fi, nt, "%s: a path from _new_turns - which consumes the chunk and advances head and sample tail - "
+                    ctx.violated(fi, cfg.stmt[a], "%s: a path from _new_turns - which consumes the chunk and advances head and sample tail - "
                                  "reaches the end of process() without running %s and storing its residuals: the carried "
                                  "residuals no longer match the consumed samples" % (fi.cls.name if fi.cls else fi.name,
                                                                                     norm_text(ks.value.func)),
                                  text="shortcut around %s" % norm_text(ks.value.func))
+
+
+def _must_effect_nodes(prog, fi, cfg, pred, may=False, depth=0, _seen=None):
+    """CFG nodes of `fi` whose statement has the effect `pred(function, stmt)` itself, or calls a method of the same object that
+    has it on every one of its paths (may=True: on some path).  Interprocedural, depth-limited."""
+    _seen = _seen or set()
+    out = set()
+    for x in walk_function(fi.node):
+        if not isinstance(x, ast.stmt):
+            continue
+        n = cfg.node(x)
+        if n is None:
+            continue
+        if pred(fi, x):
+            out.add(n)
+            continue
+        if depth >= 3 or isinstance(x, (ast.If, ast.For, ast.While, ast.Try, ast.With, ast.FunctionDef)):
+            continue
+        for c in calls_in(x):
+            if isinstance(c.func, ast.Attribute) and is_self_attr(c.func):
+                for key in prog.resolve_call(fi, c):
+                    callee = prog.functions.get(key)
+                    if callee is None or callee.key in _seen:
+                        continue
+                    ccfg = CFG(callee.node)
+                    inner = _must_effect_nodes(prog, callee, ccfg, pred, may, depth + 1, _seen | {fi.key})
+                    if inner and (may or ccfg.must_pass(ccfg.exit, inner)):
+                        out.add(n)
+    return out
 
 
 # ----------------------------------------------------------------------------- R-C01-2
@@ -248,133 +278,153 @@ def _r2_new_turns(ctx, prog):
 
 
 def _r2_new_turns_core(ctx, prog):
+    """Chunk bookkeeping of AbstractDetector._new_turns, decided on its symbolic execution (sa/absint.TermDomain with the
+    object's attributes as state, helper methods followed, find_turns kept opaque): with SEEN = concatenate(tail, chunk) and
+    L = find_turns(SEEN)[0],
+      (a) the reported index is L + head_index - len(tail) (both as they were on entry),
+      (b) head_index becomes head_index + len(chunk) on the non-empty path and is untouched on the empty one,
+      (c) the new tail is SEEN[L[-1] or 0 :] (after a flush: its last sample),
+      (d) a flush appends index head_index + len(chunk) - 1.
+    Temporaries, renames, statement order and helper extraction do not matter."""
+    from ..absint import Interp, TermDomain, Seq, term_walk, term_alternatives, term_to_nf
     fi = prog.func(GEN + ":AbstractDetector._new_turns")
-    cfg = CFG(fi.node)
-    chunk = [p for p in fi.params if p != "self"][0]
-    head_stores = _stores(fi.node, "_head_index")
-    tail_stores = _stores(fi.node, "_sample_tail")
-    if not head_stores or not tail_stores:
+    params = [p for p in fi.params if p != "self"]
+    chunk = params[0]
+    it = Interp(prog, TermDomain(), follow=lambda c: c.name != "find_turns")
+    args = [("p", q) for q in params]
+    # flags: evaluate with their parameters unknown (both arms of every test are joined)
+    it.run(fi, args)
+    exits = it.exits
+    H, T0, S = ("self", "_head_index"), ("self", "_sample_tail"), ("p", chunk)
+    LEN_T, LEN_S = ("call", "len", (T0,), ()), ("call", "len", (S,), ())
+
+    def is_seen(z):
+        return isinstance(z, tuple) and z[:2] == ("call", "np.concatenate") and len(z[2]) == 1 and isinstance(z[2][0], Seq) and \
+            tuple(z[2][0]) == (T0, S)
+
+    def is_local(z):
+        return isinstance(z, tuple) and len(z) == 3 and z[0] == "at" and z[2] == ("c", 0) and isinstance(z[1], tuple) and \
+            z[1][:2] == ("call", "find_turns") and len(z[1][2]) == 1 and is_seen(z[1][2][0])
+
+    opaque = {}
+
+    def atom(z):
+        if is_local(z):
+            return "L"
+        if z == H:
+            return "H"
+        if z == LEN_T:
+            return "T"
+        if z == LEN_S:
+            return "N"
+        if isinstance(z, tuple) and z and (z[0] in ("call", "m", "at", "attr", "phi", "where", "self", "p", "?") or
+                                           (z[0] == "c" and not isinstance(z[1], (int, float)))):
+            return opaque.setdefault(z, "X%d" % (len(opaque) + 1))      # anything else is an opaque quantity
+        return None
+    sym = lambda txt: to_nf(parse_expr(txt))
+    moving = [(v, st) for v, st in exits if "self._head_index" in st or "self._sample_tail" in st]
+    still = [(v, st) for v, st in exits if not ("self._head_index" in st or "self._sample_tail" in st)]
+    if not moving:
         raise AnalysisError("_new_turns no longer stores _head_index/_sample_tail")
     # (a) the globalising offset
-    offs = [s for s in walk_function(fi.node) if isinstance(s, (ast.AugAssign, ast.Assign)) and
-            any(is_self_attr(n, "_head_index") for n in ast.walk(s.value)) and
-            not any(is_self_attr(t) for t in assigned_targets(s))]
+    offs = []
+    for v, st in moving:
+        for z in term_walk(v):
+            if isinstance(z, tuple) and len(z) == 4 and z[0] == "op" and z[1] in ("+", "-") and any(is_local(y) for y in (z[2], z[3])) \
+                    and z not in offs:
+                offs.append(z)
     if not offs:
-        raise AnalysisError("_new_turns: statement adding the head index to the local turn index not found")
-    off = offs[0]
-    n_off = cfg.node(off)
-    bad = None
-    for st in head_stores + tail_stores:
-        n_st = cfg.node(st)
-        if n_off in cfg.reachable(n_st) and n_st != n_off:
-            bad = st
-    reads_tail = any(is_self_attr(n, "_sample_tail") for n in ast.walk(off.value))
-    nf = affine_eval(off.value, lambda e: "HEAD" if is_self_attr(e, "_head_index") else (
-        "TAIL" if isinstance(e, ast.Call) and call_name(e) == "len" and is_self_attr(e.args[0], "_sample_tail") else None))
-    if bad is not None:
-        ctx.violated(fi, off, "the global-index offset is computed after %r was updated (line %d): it must use the values "
-                     "from before this chunk" % (norm_text(bad.targets[0] if isinstance(bad, ast.Assign) else bad.target),
-                                                 bad.lineno))
-    elif nf is None or nf != Affine({"HEAD": 1, "TAIL": -1}):
-        ctx.violated(fi, off, "global-index offset is %s; it must be head_index - len(sample_tail)" % norm_text(off.value))
-    else:
-        ctx.holds(fi, off, "offset = head_index - len(tail), both read before they are updated")
+        raise AnalysisError("_new_turns: the local turn index of find_turns(concatenate(tail, chunk)) does not reach the result")
+    for z in offs:
+        try:
+            nf = term_to_nf(z, atom)
+        except NFUnsupported:
+            raise AnalysisError("_new_turns: global-index offset outside the fragment: %r" % (z,))
+        if nf == sym("L + H - T"):
+            ctx.holds(fi, fi.node, "offset = head_index - len(tail), both as they were before this chunk")
+        else:
+            ctx.violated(fi, fi.node, "global-index offset: the reported index is %r (L local turn index, H/T head index and tail length "
+                         "on entry, N chunk length); it must be L + head_index - len(sample_tail) with the values from before this "
+                         "chunk" % nf, text="offset %r" % nf)
     # (b) head advances exactly once per non-empty chunk by len(chunk)
-    for st in head_stores:
-        ok = isinstance(st, ast.AugAssign) and isinstance(st.op, ast.Add) and isinstance(st.value, ast.Call) and \
-            call_name(st.value) == "len" and isinstance(st.value.args[0], ast.Name) and st.value.args[0].id == chunk
-        if not ok and isinstance(st, ast.Assign):
-            a = affine_eval(st.value, lambda e: "HEAD" if is_self_attr(e, "_head_index") else (
-                "LEN" if isinstance(e, ast.Call) and call_name(e) == "len" and isinstance(e.args[0], ast.Name)
-                and e.args[0].id == chunk else None))
-            ok = a == Affine({"HEAD": 1, "LEN": 1})
-        if ok:
-            ctx.holds(fi, st, "head index advances by len(%s)" % chunk)
+    for v, st in moving:
+        h = st.get("self._head_index")
+        try:
+            nf = term_to_nf(h, atom) if h is not None else None
+        except NFUnsupported:
+            raise AnalysisError("_new_turns: head index update outside the fragment: %r" % (h,))
+        if nf == sym("H + N"):
+            ctx.holds(fi, fi.node, "head index advances by len(%s)" % chunk)
         else:
-            ctx.violated(fi, st, "head index is advanced by %s, not by the length of the incoming chunk" %
-                         norm_text(st.value))
-    paths = cfg.paths(cfg.entry, {cfg.exit}, limit=256)
-    empty_tests = [n for n in cfg.nodes() if cfg.kind[n] == "test" and
-                   _is_empty_test(cfg.stmt[n].test, chunk)]
-    hs = {cfg.node(s) for s in head_stores}
-    counts = set()
-    for p in paths:
-        empty = any(n in empty_tests and lab is True for n, lab in p)
-        k = sum(1 for n, _ in p if n in hs)
-        counts.add((empty, k))
-    if counts <= {(True, 0), (False, 1)} and (False, 1) in counts:
-        ctx.holds(fi, head_stores[0], "head index stored exactly once on each of %d non-empty paths, never on the empty-chunk "
-                  "path" % len([1 for p in paths]), {"paths": len(paths)})
+            ctx.violated(fi, fi.node, "head index is advanced to %r, not by the length of the incoming chunk (H + N)" % nf,
+                         text="head %r" % nf)
+    if still:
+        ctx.holds(fi, fi.node, "head index stored exactly once on the non-empty path, never on the empty-chunk path",
+                  {"exits": len(exits)})
     else:
-        ctx.violated(fi, head_stores[0], "head index is not advanced exactly once per non-empty chunk "
-                     "(empty-chunk?, stores) over paths: %s" % sorted(counts))
-    # (c) tail cut from the array find_turns saw, at the local turn index
-    ft = [s for s in walk_function(fi.node) if isinstance(s, ast.Assign) and isinstance(s.value, ast.Call) and
-          call_name(s.value) == "find_turns"]
-    if len(ft) != 1:
-        raise AnalysisError("_new_turns: expected one find_turns call")
-    seen_arr = norm_text(ft[0].value.args[0])
-    idx_name = ft[0].targets[0].elts[0].id if isinstance(ft[0].targets[0], ast.Tuple) else None
-    ts = tail_stores[0]
-    v = ts.value
-    if len(tail_stores) > 1:
-        ctx.violated(fi, tail_stores[1], "the carried sample tail is assigned %d times in _new_turns (%s): anything removed from the "
-                     "suffix changes its length, which is the position offset of the next chunk" %
-                     (len(tail_stores), norm_text(tail_stores[1])), text="tail stored twice")
-    if not (isinstance(v, ast.Subscript) and isinstance(v.slice, ast.Slice) and v.slice.upper is None):
-        ctx.violated(fi, ts, "sample tail is not a suffix slice of the analysed samples")
-    elif norm_text(v.value) != seen_arr:
-        ctx.violated(fi, ts, "sample tail is cut from %s but the turns were found on %s" % (norm_text(v.value), seen_arr))
-    else:
-        lower = v.slice.lower
-        defs = [s for s in walk_function(fi.node) if isinstance(s, ast.Assign) and isinstance(lower, ast.Name) and
-                any(isinstance(t, ast.Name) and t.id == lower.id for t in s.targets)]
-        uses_idx = defs and idx_name in names_in(defs[0].value)
+        raise AnalysisError("_new_turns: no early exit for an empty chunk found")
+    # (c) tail cut from the array find_turns saw, at the last local turn index
+    for v, st in moving:
+        tail = st.get("self._sample_tail")
+        alts = term_alternatives(tail)
 
-        def last_or_zero(e):
-            # idx[-1] if <idx non-empty> else 0
-            if not isinstance(e, ast.IfExp):
-                return False
-            b, o = e.body, e.orelse
-            last = isinstance(b, ast.Subscript) and isinstance(b.value, ast.Name) and b.value.id == idx_name and \
-                isinstance(b.slice, ast.UnaryOp) and isinstance(b.slice.op, ast.USub) and const_value(b.slice.operand) == 1
-            t = e.test
-            nonempty = isinstance(t, ast.Compare) and len(t.ops) == 1 and isinstance(t.ops[0], ast.Gt) and \
-                const_value(t.comparators[0]) == 0 and idx_name in names_in(t.left)
-            return last and nonempty and const_value(o) == 0
-        if not defs or not uses_idx:
-            ctx.violated(fi, ts, "tail start %s does not derive from the last local turn index" % norm_text(lower))
-        elif len(defs) != 1 or not last_or_zero(defs[0].value):
-            ctx.violated(fi, defs[-1], "the kept sample tail does not start exactly at the last turning point found (or at 0 if "
-                         "there is none): %s; a shorter tail forgets the pending extremum and everything that decides whether it "
-                         "is a reversal, a longer one re-reports turning points" %
-                         " ; ".join(norm_text(d) for d in defs), text="tail start " + " ; ".join(norm_text(d.value) for d in defs))
-        elif cfg.node(off) in cfg.reachable(cfg.entry, avoid={cfg.node(defs[0])}) and \
-                cfg.node(defs[0]) in cfg.reachable(cfg.node(off)):
-            ctx.violated(fi, defs[0], "tail start is read from the turn index after it was shifted to global indices")
-        elif not cfg.must_pass(cfg.node(off), {cfg.node(defs[0])}):
-            ctx.violated(fi, defs[0], "tail start is not computed before the turn index is shifted to global indices")
+        def base_of(z):
+            # flush keeps the last sample of the tail: X[-1:]
+            if isinstance(z, tuple) and len(z) == 3 and z[0] == "at" and z[2] == ("slice", ("c", -1), None, None):
+                return z[1], True
+            return z, False
+        bases = []
+        for a_ in alts:
+            b_, _ = base_of(a_)
+            if b_ not in bases:
+                bases.append(b_)
+        if len(bases) != 1:
+            ctx.violated(fi, fi.node, "the carried sample tail is one of %d different arrays depending on the path: anything removed "
+                         "from or added to the suffix changes its length, which is the position offset of the next chunk" % len(bases),
+                         text="tail stored twice")
+            continue
+        b_ = bases[0]
+        if not (isinstance(b_, tuple) and len(b_) == 3 and b_[0] == "at" and isinstance(b_[2], tuple) and b_[2][:1] == ("slice",)
+                and len(b_[2]) == 4 and b_[2][2] is None and b_[2][3] is None):
+            ctx.violated(fi, fi.node, "sample tail is not a suffix slice of the analysed samples: %r" % (b_[:2] if isinstance(b_, tuple) else b_,),
+                         text="tail not a suffix")
+            continue
+        if not is_seen(b_[1]):
+            ctx.violated(fi, fi.node, "sample tail is cut from another array than the one the turns were found on "
+                         "(concatenate(tail, chunk))", text="tail from other array")
+            continue
+        start = set(term_alternatives(b_[2][1]))
+        want = {("c", 0)}
+        lasts = {z for z in start if isinstance(z, tuple) and len(z) == 3 and z[0] == "at" and is_local(z[1]) and z[2] == ("c", -1)}
+        if lasts and start == want | lasts:
+            ctx.holds(fi, fi.node, "tail = analysed_samples[last local turn index (or 0):], index read before globalisation")
         else:
-            ctx.holds(fi, ts, "tail = analysed_samples[last local turn index:], index read before globalisation")
+            ctx.violated(fi, fi.node, "the kept sample tail does not start exactly at the last turning point found (or at 0 if "
+                         "there is none): start = %r; a shorter tail forgets the pending extremum and everything that decides "
+                         "whether it is a reversal, a longer one re-reports turning points" % (sorted(start, key=repr),),
+                         text="tail start")
     # (d) flush
-    fl = prog.func(GEN + ":AbstractDetector._flush_new_turns")
-    app = [c for c in calls_in(fl.node) if call_name(c) in ("np.concatenate", "np.append") and
-           any(is_self_attr(n, "_head_index") for n in ast.walk(c))]
-    if not app:
+    appended = []
+    for v, st in moving:
+        for z in term_walk(v):
+            if isinstance(z, tuple) and z[:1] == ("call",) and z[1] in ("np.concatenate", "np.append") and z[2]:
+                parts = list(z[2][0]) if isinstance(z[2][0], Seq) else list(z[2])
+                if len(parts) == 2 and any(is_local(y) for y in term_walk(parts[0])):
+                    last = parts[1][0] if isinstance(parts[1], Seq) and len(parts[1]) == 1 else parts[1]
+                    if any(y == H for y in term_walk(last)) and last not in appended:
+                        appended.append(last)
+    if not appended:
         raise AnalysisError("_flush_new_turns: appended head index not found")
-    term = [n for n in ast.walk(app[0]) if isinstance(n, ast.BinOp) and any(is_self_attr(x, "_head_index") for x in ast.walk(n))]
-    a = affine_eval(term[0], lambda e: "HEAD" if is_self_attr(e, "_head_index") else None) if term else \
-        Affine({"HEAD": 1})
-    calls = [s for s in walk_function(fi.node) if any(c for c in calls_in(s) if isinstance(c.func, ast.Attribute) and
-                                                      c.func.attr == "_flush_new_turns") and isinstance(s, ast.stmt)
-             and not isinstance(s, (ast.If, ast.For, ast.While))]
-    if a != Affine({"HEAD": 1}, -1):
-        ctx.violated(fl, app[0], "flushed sample gets index %s; the last sample of the chunk is head_index - 1" % a,
-                     text=norm_text(app[0]))
-    elif not calls or not all(cfg.must_pass(cfg.node(c), {cfg.node(s) for s in head_stores}) for c in calls):
-        ctx.violated(fi, calls[0] if calls else fi.node, "flush runs before the head index was advanced")
-    else:
-        ctx.holds(fl, app[0], "flush appends head_index - 1 of the already advanced head")
+    for last in appended:
+        try:
+            nf = term_to_nf(last, atom)
+        except NFUnsupported:
+            raise AnalysisError("flush index outside the fragment: %r" % (last,))
+        if nf == sym("H + N - 1"):
+            ctx.holds(fi, fi.node, "flush appends head_index - 1 of the already advanced head")
+        else:
+            ctx.violated(fi, fi.node, "flushed sample gets index %r; the last sample of the chunk is head_index + len(chunk) - 1" % nf,
+                         text="flush index %r" % nf)
 
 
 def _is_empty_test(t, chunk):
@@ -590,52 +640,46 @@ def _r5_bracket(ctx, prog):
 # ----------------------------------------------------------------------------- R-C01-6
 
 def _facts(prog, fi):
-    cfg = CFG(fi.node)
-    ks = [s for s in walk_function(fi.node) if isinstance(s, ast.Assign) and isinstance(s.value, ast.Call)
-          and (call_name(s.value) or "").endswith("point_loop")]
-    if len(ks) != 1:
-        raise AnalysisError("%s: kernel call not found" % fi.key)
-    ks = ks[0]
-    last = fi.node.body[-1]
-    env = inline_env(cfg, last)
-    env.pop("__ambiguous__")
-    res = [t.id for t in ks.targets[0].elts]
-    kenv = inline_env(cfg, ks)
-    kenv.pop("__ambiguous__")
-    facts = {}
-    facts["kernel values"] = _canon(subst_names(ks.value.args[0], kenv))
-    facts["kernel indices"] = _canon(subst_names(ks.value.args[1], kenv))
-    placeholder = {r: ast.Name(id="KERNEL_%d" % i, ctx=ast.Load()) for i, r in enumerate(res)}
-    senv = {k: v for k, v in kenv.items()}
-    senv.update(placeholder)
-    # rename the value-array local to a common name
-    val_name = ks.value.args[0].id if isinstance(ks.value.args[0], ast.Name) else None
-    idx_name = ks.value.args[1].id if isinstance(ks.value.args[1], ast.Name) else None
-    ren = dict(placeholder)
-    if val_name:
-        ren[val_name] = ast.Name(id="VALUES", ctx=ast.Load())
-    if idx_name:
-        ren[idx_name] = ast.Name(id="INDICES", ctx=ast.Load())
-    after = False
-    n = 0
-    for s in fi.node.body:
-        if s is ks:
-            after = True
-            continue
-        if not after:
-            continue
-        if isinstance(s, ast.Expr) and isinstance(s.value, ast.Call) and isinstance(s.value.func, ast.Attribute):
-            facts["call %s" % norm_text(s.value.func)] = _canon(subst_names(s.value, ren))
-        elif isinstance(s, ast.Assign):
-            facts["store %s" % norm_text(s.targets[0])] = _canon(subst_names(s.value, ren))
-        elif isinstance(s, ast.Return):
-            facts["return"] = _canon(s.value) if s.value is not None else ""
-        n += 1
-    return facts, ks
+    """What a kernel-based process() does, as symbolic terms (helper methods followed, _new_turns and the kernel opaque):
+    the two arrays handed to the kernel, the recorder calls in order, the detector state afterwards - with every occurrence
+    of the kernel call replaced by KERNEL, so that the three- and four-point versions can be compared."""
+    from ..absint import Interp, TermDomain, Seq, term_walk
+    it = Interp(prog, TermDomain(), follow=lambda c: c.name not in ("_new_turns", "find_turns") and not c.name.endswith("point_loop"),
+                max_depth=4)
+    params = [p for p in fi.params if p != "self"]
+    it.run(fi, [("p", q) for q in params])
+    kernels = []
+    pool = [v for v, st in it.exits] + [x for v, st in it.exits for x in st.values()] + list(it.effects)
+    for t in pool:
+        for z in term_walk(t):
+            if isinstance(z, tuple) and z[:1] == ("call",) and isinstance(z[1], str) and z[1].endswith("point_loop") and z not in kernels:
+                kernels.append(z)
+    if len(kernels) != 1:
+        raise AnalysisError("%s: kernel call not found in the symbolic execution (%d candidates)" % (fi.key, len(kernels)))
+    k = kernels[0]
+
+    def canon(t):
+        if t == k:
+            return "KERNEL"
+        if isinstance(t, Seq):
+            return Seq(canon(x) for x in t)
+        if isinstance(t, tuple):
+            return tuple(canon(x) for x in t)
+        return t
+    facts = {"kernel values": repr(canon(k[2][0]))[:4000], "kernel indices": repr(canon(k[2][1]))[:4000] if len(k[2]) > 1 else ""}
+    calls = [e for e in it.effects if isinstance(e, tuple) and e[:1] == ("m",) and e[1] == ("self", "_recorder")]
+    facts["recorder calls"] = repr([canon(("m", e[2], e[3], e[4])) for e in calls])[:4000]
+    final = [st for v, st in it.exits if st]
+    for attr in ("self._residuals", "self._residual_index"):
+        vals = {repr(canon(st.get(attr)))[:4000] for st in final}
+        facts["state " + attr] = " | ".join(sorted(vals))
+    ks = [s_ for s_ in walk_function(fi.node) if isinstance(s_, ast.Assign) and isinstance(s_.value, ast.Call)
+          and (call_name(s_.value) or "").endswith("point_loop")]
+    return facts, (ks[0] if ks else fi.node)
 
 
 def _r6_siblings(ctx, prog, dets):
-    ctx.rule("R-C01-6", floor=6, what="three-/four-point process agree up to the kernel call (closed forms)")
+    ctx.rule("R-C01-6", floor=5, what="three-/four-point process agree up to the kernel call (closed forms)")
     sib = [(ci, fi) for ci, fi in dets if any((call_name(c) or "").endswith("point_loop") for c in calls_in(fi.node))]
     if len(sib) != 2:
         raise AnalysisError("expected two kernel-based detectors, found %d" % len(sib))
